@@ -13,8 +13,8 @@ import re
 HERE = os.path.dirname(os.path.abspath(__file__))
 PATH = os.path.join(os.path.dirname(HERE), "kani", "src", "h_static.rs")
 
-SEM = {"st": "Sem::ST", "co": "Sem::CO", "pr": "Sem::PR", "gr": "Sem::GR"}
-ENC = {"def": "Enc::Default", "aux": "Enc::AuxCo", "exp": "Enc::ExpCo", "hyb": "Enc::Hybrid"}
+SEM = {"st": "Sem::ST", "co": "Sem::CO", "pr": "Sem::PR", "gr": "Sem::GR", "sst": "Sem::SST", "stg": "Sem::STG", "id": "Sem::ID"}
+ENC = {"def": "Enc::Default", "aux": "Enc::AuxCo", "exp": "Enc::ExpCo", "hyb": "Enc::Hybrid", "adm": "Enc::AuxAdm", "acf": "Enc::AuxCf", "ecf": "Enc::ExpCf"}
 KIND = {"se": "Kind::SE", "dc": "Kind::DC", "ds": "Kind::DS"}
 PRES = {"pl": "Pres::Plain", "du": "Pres::Dup", "s1": "Pres::SparseFirst", "s2": "Pres::SparseMid"}
 CHECKS = {"c01": "ANSWER", "c02": "ANSWER", "c03": "ANSWER", "c04": "CERT", "c07": "CERT", "c16": "HEADER", "c17": "FAULT", "c18": "CALLS"}
@@ -48,7 +48,8 @@ def h(prop, tier, sem, kind, enc, n, code, q, pres="pl", cert=None, fault=0, che
     uses_ext = (group in ("CERT",) and (cert or kind == "se")) or (group == "ANSWER" and kind == "se")
     multi = components(n, code) > 1
     # measured (DESIGN.md section 2): these need 25-37 GB and 7-10 minutes of CBMC each -> tier x (thorough, one at a time)
-    heavy = sem != "gr" and uses_ext and ((sem in ("co", "pr")) or multi or (n == 3 and len(q) == 2) or pres in ("s1", "s2") and sem in ("co", "pr"))
+    iterative = sem in ("sst", "stg", "id") or (sem == "pr" and kind != "dc")
+    heavy = sem != "gr" and not iterative and uses_ext and ((sem in ("co", "pr")) or multi or (n == 3 and len(q) == 2) or pres in ("s1", "s2") and sem in ("co", "pr"))
     if sem == "st" and n == 2 and code in (8, 9):
         heavy = False  # the first component has no stable extension: the query ends at the first UNSAT (measured 40 s / 1.5 GB)
     if heavy:
@@ -61,8 +62,13 @@ def h(prop, tier, sem, kind, enc, n, code, q, pres="pl", cert=None, fault=0, che
     if name in seen:
         return
     seen.add(name)
-    nv = n + 1 if sem in ("st", "gr") or kind != "dc" else (2 * n + 1 if enc in ("aux", "def") else n + 2)
-    words = 1 if nv <= 6 else (2 if nv <= 7 else 4)
+    if sem in ("sst", "stg"):
+        nv = (3 * n if enc in ("aux", "def", "acf") and not (sem == "stg" and enc == "def") else 2 * n) + 2
+    elif sem in ("pr", "id") and not (sem == "pr" and kind == "dc"):
+        nv = (2 * n if enc in ("aux", "def", "adm") else n) + 3
+    else:
+        nv = n + 1 if sem in ("st", "gr") or kind != "dc" else (2 * n + 1 if enc in ("aux", "def") else n + 2)
+    words = 1 if nv <= 6 else (2 if nv <= 7 else (4 if nv <= 8 else (8 if nv <= 9 else (16 if nv <= 10 else (32 if nv <= 11 else 64)))))
     unwind = max(6, nv + 2, n * n // 2 + 3)
     catalogue[name] = {"arguments": n, "attacks": ["%s->%s" % (LETTER[i], LETTER[j]) for i in range(n) for j in range(n) if (code >> (i * n + j)) & 1],
                        "problem": "%s-%s" % (kind.upper(), sem.upper()), "query": [LETTER[i] for i in q], "encoder": enc, "presentation": PRES[pres].split("::")[1],
@@ -217,6 +223,50 @@ h("c18", "q", "st", "se", "def", 2, 0, [], cert=False)
 h("c18", "t", "st", "ds", "def", 2, 0, [0, 1], cert=True)
 h("c18", "t", "co", "dc", "exp", 2, 0, [0, 1], cert=False)
 h("c18", "t", "st", "dc", "def", 3, 0, [0, 2], cert=True)
+
+# ------------------------------------------------------------------ iterative solvers, "UNSAT-first" cases only
+# PR (SE/DS), SST, STG, ID are out of CBMC's reach as soon as the backend returns a model (DESIGN.md section 2).  On
+# frameworks whose grounded extension already is the answer, every SAT call is unsatisfiable and the whole query runs
+# on concrete data: these cases are cheap and exercise the set-up, blocking clauses, selectors, Unknown handling and
+# certificate assembly of the iterative solvers.  Candidates are generated here and filtered by lib/select_unsat_first.py.
+ITER = []
+for sem, encs in (("pr", ("adm", "exp", "hyb")), ("sst", ("aux", "exp")), ("stg", ("acf", "ecf")), ("id", ("aux", "exp"))):
+    for enc in encs:
+        for n, g in (((2, 2), (2, 0), (3, 34)) if enc == encs[0] else ((2, 2),)):
+            ITER.append(("c01", sem, "se", enc, n, g, []))
+            for q in range(n):
+                ITER.append(("c03", sem, "ds", enc, n, g, [q]))
+                if sem != "pr":
+                    ITER.append(("c02", sem, "dc", enc, n, g, [q]))
+iter_names = []
+for prop, sem, kind, enc, n, g, q in ITER:
+    before = len(out)
+    tier = "q" if (n == 2 and g == 2 and enc in ("adm", "aux", "acf")) else "t"
+    h(prop, tier, sem, kind, enc, n, g, q)
+    if len(out) > before:
+        iter_names.append(out[-1].split("(")[1].split(",")[0])
+    if kind != "se":
+        before = len(out)
+        h("c04", tier, sem, kind, enc, n, g, q, cert=True)
+        if len(out) > before:
+            iter_names.append(out[-1].split("(")[1].split(",")[0])
+# fault injection on the iterative solvers (the first SAT call fails)
+for sem, enc in (("pr", "adm"), ("sst", "aux"), ("stg", "ecf"), ("id", "aux")):
+    before = len(out)
+    h("c17", "q" if sem in ("pr", "sst") else "t", sem, "se", enc, 2, 2, [], cert=False, fault=1)
+    if len(out) > before:
+        iter_names.append(out[-1].split("(")[1].split(",")[0])
+    before = len(out)
+    h("c17", "t", sem, "ds", enc, 2, 2, [1], cert=True, fault=2)
+    if len(out) > before:
+        iter_names.append(out[-1].split("(")[1].split(",")[0])
+import json as _json
+_json.dump(iter_names, open(os.path.join(os.path.dirname(HERE), "kani", "iterative_candidates.json"), "w"))
+keep_path = os.path.join(os.path.dirname(HERE), "kani", "iterative_keep.json")
+if os.path.exists(keep_path):
+    keep = set(_json.load(open(keep_path)))
+    out = [l for l in out if l.split("(")[1].split(",")[0] not in set(iter_names) or l.split("(")[1].split(",")[0] in keep]
+    catalogue = {k: v for k, v in catalogue.items() if k not in set(iter_names) or k in keep}
 
 text = open(PATH).read()
 marker = "// GENERATED-BELOW (lib/gen_harnesses.py)\n"
